@@ -9,11 +9,11 @@ from harness import lib
 ODIR = lib.BUILD / "ocaml"
 BIN = ODIR / "oracle"
 
-EXTRACT_V = """Require Import Stab.model.Engine.
+EXTRACT_V = """Require Import Stab.model.Engine Stab.model.EngineInv.
 Require Extraction.
 Require Import ExtrOcamlBasic.
 Extraction Language OCaml.
-Extraction "engine_core.ml" Engine.step_trace Engine.step Engine.init_state Engine.mk_task Engine.kv_set.
+Extraction "engine_core.ml" Engine.step_trace Engine.step Engine.init_state Engine.mk_task Engine.kv_set EngineInv.inv_clauses.
 """
 
 
@@ -21,7 +21,7 @@ def build(force: bool = False) -> str:
     """returns '' on success, error text otherwise"""
     ODIR.mkdir(parents=True, exist_ok=True)
     with lib._Lock(".ocaml.lock"):
-        srcs = [lib.COQ / "model" / "Engine.vo", lib.VERIF / "ocaml" / "oracle.ml"]
+        srcs = [lib.COQ / "model" / "Engine.vo", lib.COQ / "model" / "EngineInv.vo", lib.VERIF / "ocaml" / "oracle.ml"]
         if any(not p.exists() for p in srcs):
             return "missing " + ", ".join(str(p) for p in srcs if not p.exists())
         if not force and BIN.exists() and all(BIN.stat().st_mtime > p.stat().st_mtime for p in srcs):
